@@ -104,6 +104,26 @@ theorem blake_update_bitlen (c : Blake.Cfg)
 theorem blake_initstate_forgets (c : Blake.Cfg) (salt : Nat) :
     (Blake.initstate c salt).pad = { padflag := false, bitcnt := 0, padcnt := 0 } := rfl
 
+/-- **initstate() after any earlier life is unsalted**: `h.initstate()` with no argument is `initstate(salt=0)` — the salt
+    of an earlier salted call / stream is not an input of `Blake.initstate` — so the pieces fed after it, finished, give the
+    UNSALTED one-shot digest `h(M)`, for every final piece (the `… call … s=x | init | upd … | fin …` lives of the
+    `blakeseqs` lines; several objects alive at the same time: `Proofs.C14.siblings_do_not_interfere`) -/
+theorem blake_pieces_after_default_init (c : Blake.Cfg)
+    (hc : c = Blake.blake224 ∨ c = Blake.blake256 ∨ c = Blake.blake384 ∨ c = Blake.blake512)
+    (pieces : List (List Nat))
+    (hal : ∀ p ∈ pieces, p.length % (c.blocksize / 8) = 0) (hby : ∀ p ∈ pieces, ∀ b ∈ p, b < 256) (final : List Nat) :
+    (Blake.initstate c).salt = Blake.saltWords c.wsize 0 ∧
+    (Blake.update c (Blake.feed c (Blake.initstate c) pieces) final none true).2
+      = Blake.call c (pieces.flatten ++ final) :=
+  ⟨rfl, blake_pieces_call c hc 0 pieces hal hby final⟩
+
+/-- BLAKE2: `initstate()` with no keyword is the state of the default parameter block (digest length size/8, no salt, no
+    personalisation, sequential mode), whatever digest length / salt / tree parameters an earlier call or stream on the
+    object used: they are not inputs of `Blake2.initstate`; stated as: the one-shot call with no keyword is
+    `update(initstate(), M, padding)` -/
+theorem blake2_call_default_init (c : Blake.Cfg) (M : List Nat) :
+    Blake2.call c M = (Blake2.initstate c {}).bind fun s => (Blake2.update c s M true).2 := rfl
+
 /-- BLAKE2, digest and object state: pieces then a non-empty final piece = one-shot on the concatenation.
     (`_partial`: the property also quantifies over the empty final piece, for which the code fails — known finding.) -/
 theorem blake2_pieces_partial (c : Blake.Cfg) (hc : c = Blake2.blake2b ∨ c = Blake2.blake2s)
